@@ -33,9 +33,17 @@ def step (st : St) (line : String) : St × String :=
   if op.startsWith "#case" then ({}, "-\t-\t-") else
   match parseOp? op with
   | none => (st, "bad-op\tbad-op\tbad-op")
+  | some .adopt =>
+    match splitEv impl with
+    | some (_, snap) =>
+      match parseSnap? snap with
+      | some s => ({ model := some { s.e with hasVx := false } }, "=\t=\t-")
+      | none => (st, "-\tunparsed\tFAIL unparsed implementation snapshot")
+    | none => (st, "-\tunparsed\tFAIL unparsed implementation snapshot")
   | some cmd =>
     let res : Option (M (Emu × Nat)) :=
       match cmd, st.model with
+      | .adopt, _ => none
       | .new w h, _ => some (do .ok (← Emu.new Fixes.current w h, 0))
       | .op o, some e => some (emuStep e o)
       | .op _, none => none
